@@ -350,6 +350,21 @@ def pipeline_dataset(seed, n_chroms=3, split_locus=True, chrom_names=None, reads
             reads_for(chrom, s3 + [ext], strand, reads_per + 4)
             meta["split_genes"].append(gid)
             pos = ext[1] + 3000
+        if split_locus and ci % 2 == 1:
+            # a single-isoform gene with a long intron whose reads never span it: truncated reads of the 5' half and reads of
+            # the 3' half form two separate read regions, and the SAME annotated isoform is supported in both of them
+            # (a known isoform must still be reported once)
+            strand = "+"
+            a = pos
+            head = [(a, a + 200), (a + 500, a + 700), (a + 1000, a + 1200)]
+            tail = [(a + 10200, a + 10400), (a + 10700, a + 10900), (a + 11200, a + 11500)]
+            gid = "GL_%s" % chrom
+            ds.add_gene(chrom, gid, strand, [("TL_%s" % chrom, head + tail)])
+            reads_for(chrom, head, ".", reads_per + 2, jitter=10, tails=False)
+            reads_for(chrom, tail, ".", reads_per + 2, jitter=10, tails=False)
+            meta["split_genes"].append(gid)
+            meta.setdefault("same_isoform_two_regions", []).append("TL_%s" % chrom)
+            pos = tail[-1][1] + 3000
         assert pos < clen - 100, "chromosome too short for the generated loci"
     return ds, meta
 
